@@ -299,7 +299,8 @@ func VH_C10_Cut(sk, cut, failure int) {
 	vReach("cut stream scanned")
 	if err == nil {
 		// the scan stopped at a line that ends the dump, before the end of the stream
-		vAssert(len(suffix) > 0 && scut != nil, "a scan that reports no error stopped at the line ending a dump")
+		// (a race report ends on its own closing separator: the remainder may then be empty)
+		vAssert(scut != nil && (len(suffix) > 0 || sk == 6), "a scan that reports no error stopped at the line ending a dump")
 	} else if failure == 1 {
 		vAssert(err == vhErrBoom, "a reader failure is reported as exactly that error")
 	} else {
